@@ -6,4 +6,8 @@ package coordinator
 var vEntries = map[string]interface{}{
 	"VGC":    VGC,
 	"VCycle": VCycle,
+	"VRelief": VRelief,
+	"VAssign": VAssign,
+	"VScaleDown": VScaleDown,
+	"VLemmaSwr": VLemmaSwr,
 }
